@@ -9,19 +9,51 @@ let c05_split_dot (s : string) : int * int =
   | Some i -> (int_of_string (String.sub s 0 i), int_of_string (String.sub s (i + 1) (String.length s - i - 1)))
   | None -> failwith ("bad pl_event arg " ^ s)
 
-let c05_event (e : string) : pl_event =
-  let arg = String.sub e 1 (String.length e - 1) in
-  match e.[0] with
-  | 'S' -> PlEvStart (n_of_int (int_of_string arg))
-  | 'R' -> let (k, m) = c05_split_dot arg in PlEvReplyTo (n_of_int k, n_of_int m)
-  | 'I' -> let (i, m) = c05_split_dot arg in PlEvEmitId (n_of_int i, n_of_int m)
-  | 'G' -> PlEvGarbage
-  | 'C' -> PlEvCancel (n_of_int (int_of_string arg))
-  | 'X' | 'Y' -> PlEvClose
-  | _ -> failwith ("bad pl_event " ^ e)
+(* write outcome of a start with the given flags on the given transport (see harness/cmd/implrun/c05.go):
+   (fails, closes) *)
+let c05_write_plan (tcp : bool) (flags : string) : bool * bool =
+  let has c = String.contains flags c in
+  if has 'x' then (true, not tcp)
+  else if has 's' then (true, false)
+  else if has 'o' && not tcp then (true, false)
+  else (false, false)
 
-let c05_events (s : string) : pl_event list =
-  if s = "-" || s = "" then [] else List.map c05_event (String.split_on_char ',' s)
+(* events of one history; U<k> needs the flags of the k-th start *)
+let c05_events_net (tcp : bool) (s : string) : pl_event list =
+  if s = "-" || s = "" then [] else begin
+    let evs = String.split_on_char ',' s in
+    let starts = Array.of_list (List.filter_map (fun e ->
+      if e <> "" && e.[0] = 'S' then
+        Some (match String.index_opt e ':' with
+              | Some i -> String.sub e (i + 1) (String.length e - i - 1)
+              | None -> "")
+      else None) evs) in
+    List.map (fun e ->
+      let arg = String.sub e 1 (String.length e - 1) in
+      match e.[0] with
+      | 'S' ->
+          let (cs, flags) = match String.index_opt arg ':' with
+            | Some i -> (String.sub arg 0 i, String.sub arg (i + 1) (String.length arg - i - 1))
+            | None -> (arg, "") in
+          let c = n_of_int (int_of_string cs) in
+          let (fails, closes) = c05_write_plan tcp flags in
+          if String.contains flags 'h' then PlEvHold c
+          else if fails then PlEvStartFail (c, closes)
+          else PlEvStart c
+      | 'U' ->
+          let k = int_of_string arg in
+          let flags = if k >= 0 && k < Array.length starts then starts.(k) else "" in
+          if not (String.contains flags 'h') then PlEvRelease (n_of_int 65536000, true, false)   (* no such held exchange: no-op *)
+          else
+            let (fails, closes) = c05_write_plan tcp flags in
+            PlEvRelease (n_of_int k, not fails, closes)
+      | 'R' -> let (k, m) = c05_split_dot arg in PlEvReplyTo (n_of_int k, n_of_int m)
+      | 'I' -> let (i, m) = c05_split_dot arg in PlEvEmitId (n_of_int i, n_of_int m)
+      | 'G' -> PlEvGarbage
+      | 'C' -> PlEvCancel (n_of_int (int_of_string arg))
+      | 'X' | 'Y' -> PlEvClose
+      | _ -> failwith ("bad pl_event " ^ e)) evs
+  end
 
 let c05_out (o : pl_outcome) : string =
   match o with
@@ -36,7 +68,7 @@ let run_pipeline (parts : string list) : string =
   let f = fields parts in
   let tcp = (fld f "net" = "tcp") in
   let q0 = n_of_int (ifld f "q0") in
-  let evs = c05_events (fld f "ev") in
+  let evs = c05_events_net tcp (fld f "ev") in
   let (outs, closed) = pl_history_outcomes tcp q0 evs in
   (* the property's executable oracle on the model's own run *)
   let wids = Array.of_list (List.map snd outs) in
@@ -52,7 +84,12 @@ let run_pipeline (parts : string list) : string =
              else if not idok then "FAIL:caller-id-not-restored" else "ok" in
   let os = if outs = [] then "-" else String.concat "," (List.map (fun (o, _) -> c05_out o) outs) in
   let ws = if outs = [] then "-" else String.concat "," (List.map (fun (_, w) -> c05_wid w) outs) in
-  Printf.sprintf "o=%s w=%s closed=%d || spec=%s" os ws (b2i closed) spec
+  (* reuse: wire ids found in the Write calls of two exchanges; the model's exchanges hold pairwise distinct ids
+     (C05_ids_exchange, C05_ids_never_reused), computed here from the final state all the same *)
+  let st = pl_run_history tcp q0 evs in
+  let held = List.filter_map (fun (_, th) -> th.pl_twid) st.pl_threads in
+  let reuse = List.length held - List.length (List.sort_uniq compare (List.map int_of_n held)) in
+  Printf.sprintf "o=%s w=%s closed=%d reuse=%d || spec=%s" os ws (b2i closed) reuse spec
 
 (* n sequential exchanges, each answered at once, on a connection whose first id is q0.  The model covers
    connection 0; exchanges it refuses (EoL) are the ones the real transport moves to a fresh connection
